@@ -22,14 +22,16 @@ import (
 // A dump specification that must be rejected is combined with a trap script that leaves a marker file:
 // the marker tells whether the program ran before the specification was validated.
 
-func e2eProgram(r *rng.R, trap bool) []uint8 {
+// e2eProgram: a small loop program copying a table, for a given load address (the same random choices — taken from a
+// fork of the generator — for every base, so that the program can be relocated)
+func e2eProgram(r *rng.R, trap bool, base int) []uint8 {
 	n := uint8(1 + r.Intn(20))
 	code := []uint8{0xA2, n, 0xBD, 0, 0, 0x9D, 0, 0, 0xCA, 0xD0, 0xF7}
 	if trap {
 		code = append(code, 0xA9, 0x07, 0x8D, 0x00, 0x7F)
 	}
 	code = append(code, 0x00)
-	data := 0x0800 + len(code)
+	data := base + len(code)
 	data2 := data + int(n) + 1
 	code[3], code[4] = uint8(data), uint8(data>>8)
 	code[6], code[7] = uint8(data2), uint8(data2>>8)
@@ -42,8 +44,27 @@ func e2eProgram(r *rng.R, trap bool) []uint8 {
 func e2eCase(r *rng.R, dir string) []string {
 	lines := []string{}
 	trap := r.Chance(50)
-	code := e2eProgram(r, trap)
-	bin := writeFile(dir, "e2e.bin", prg(0x0800, code...))
+	// a quarter of the programs end exactly at $FFFF (on a 64K machine selected with -c)
+	top := r.Chance(25)
+	base := 0x0800
+	pr := r.Fork()
+	seedState := *pr
+	code := e2eProgram(pr, trap, base)
+	cfgArgs := []string{}
+	cfg := emuconfig.DefaultConfig()
+	if top {
+		base = 0x10000 - len(code)
+		again := seedState
+		code = e2eProgram(&again, trap, base)
+		cfg.MemSpec = "Linear64K"
+		cfgFile := filepath.Join(dir, "e2e_config.json")
+		if err := cfg.Save(cfgFile); err != nil {
+			panic(err)
+		}
+		cfgArgs = []string{"-c", cfgFile}
+		count("e2e.top")
+	}
+	bin := writeFile(dir, "e2e.bin", prg(uint16(base), code...))
 	marker := filepath.Join(dir, "ran.marker")
 	script := writeFile(dir, "e2e.lua", []byte(fmt.Sprintf("function trap(c)\n  local f = io.open(%q, 'w')\n  f:write('ran')\n  f:close()\nend\n", marker)))
 	trapArgs := []string{}
@@ -54,11 +75,10 @@ func e2eCase(r *rng.R, dir string) []string {
 		ta, sc = 0x7F00, script
 	}
 	n := len(code)
-	start := uint16(0x0800)
+	start := uint16(base)
 	end := start + uint16(n-1)
 
 	// ---- independent run: the counts "while the program ran"
-	cfg := emuconfig.DefaultConfig()
 	oc, err := cfg.NewCpu()
 	if err != nil {
 		panic(err)
@@ -120,7 +140,12 @@ func e2eCase(r *rng.R, dir string) []string {
 	dumpKind := "none"
 	switch r.Intn(4) {
 	case 0:
-		dumpArgs = []string{"-dump", fmt.Sprintf("%d:%d", 0x0800+r.Intn(n), 1+r.Intn(40))}
+		dl := 1 + r.Intn(40)
+		ds := base + r.Intn(n)
+		if ds+dl > 0x10000 {
+			dl = 0x10000 - ds
+		}
+		dumpArgs = []string{"-dump", fmt.Sprintf("%d:%d", ds, dl)}
 		dumpKind = "overlap"
 	case 1:
 		dumpArgs = []string{"-dump", "12288:16"}
@@ -131,6 +156,7 @@ func e2eCase(r *rng.R, dir string) []string {
 	args := append([]string{"-prg", bin, "-out", outFile, "-prcnt", fmt.Sprintf("%d", prcnt), "-strategy", strategy, "-silent"}, dumpArgs...)
 	args = append(args, labelArgs...)
 	args = append(args, trapArgs...)
+	args = append(args, cfgArgs...)
 	var cerr error
 	_, panicked := captureStdout(func() { cerr = commands.ProfileCommand(args) })
 	out := "!"
@@ -156,11 +182,11 @@ func e2eCase(r *rng.R, dir string) []string {
 			var e error
 			_, pk := captureStdout(func() {
 				if cmd == "profile" {
-					e = commands.ProfileCommand(append([]string{"-prg", bin, "-out", outFile, "-silent", "-dump", bad}, trapArgs...))
+					e = commands.ProfileCommand(append(append([]string{"-prg", bin, "-out", outFile, "-silent", "-dump", bad}, trapArgs...), cfgArgs...))
 				} else if cmd == "profilenoout" {
-					e = commands.ProfileCommand(append([]string{"-prg", bin, "-silent", "-dump", bad}, trapArgs...))
+					e = commands.ProfileCommand(append(append([]string{"-prg", bin, "-silent", "-dump", bad}, trapArgs...), cfgArgs...))
 				} else {
-					e = commands.RunCommand(append([]string{"-prg", bin, "-silent", "-dump", bad}, trapArgs...))
+					e = commands.RunCommand(append(append([]string{"-prg", bin, "-silent", "-dump", bad}, trapArgs...), cfgArgs...))
 				}
 			})
 			_, merr := os.Stat(marker)
